@@ -108,6 +108,12 @@ func canonTies(n *oracle.Node) {
 func differKind(want, got []byte) string {
 	a, e1 := oracle.Parse(got)
 	b, e2 := oracle.Parse(want)
+	if e1 != nil || e2 != nil {
+		// indented variants carry the harness's line prefix, which is not JSON
+		strip := func(x []byte) []byte { return bytes.ReplaceAll(x, []byte("→"), nil) }
+		a, e1 = oracle.Parse(strip(got))
+		b, e2 = oracle.Parse(strip(want))
+	}
 	if e1 == nil && e2 == nil && !oracle.Equal(a, b) {
 		canonTies(a)
 		canonTies(b)
